@@ -241,6 +241,12 @@ def roundtrip_oracle(case, stats=None):
             stat.append((prob.status, None if ov is None else float(ov[0])))
         except Exception as e:
             stat.append(("raised:" + type(e).__name__, None))
+            if isinstance(e, TypeError) and "at least one inequality" in str(e):
+                # op.solve() refuses problems without inequality constraints (modeling.py, explicit TypeError); the
+                # reader legitimately drops rows without non-zero entries, so the two ops are not comparable by solving
+                if stats is not None:
+                    stats.evaluated(case, False, ["roundtrip", "solve_skipped:no_inequality_left"])
+                return
     labels = ["roundtrip", "status:" + stat[0][0]]
     both_refused = stat[0][0].startswith("raised") and stat[1][0].startswith("raised")
     if "unknown" not in (stat[0][0], stat[1][0]) and not both_refused:
@@ -357,15 +363,24 @@ def render(case):
                 k += 1
         if case["extra_n"]:
             out.append(fld("", case["cnames"][j], "OTHEROBJ", num(3.0)))
+    def pairs(vec, name):
+        k = 0
+        while k < len(vec):
+            r1, v1 = vec[k]
+            if case["two_per_line"] and k + 1 < len(vec):
+                r2, v2 = vec[k + 1]
+                out.append(fld("", name, case["rnames"][r1], num(v1), "", case["rnames"][r2], num(v2)))
+                k += 2
+            else:
+                out.append(fld("", name, case["rnames"][r1], num(v1)))
+                k += 1
     out.append("RHS\n")
-    for r, v in case["rhs"]:
-        out.append(fld("", "RHS1", case["rnames"][r], num(v)))
+    pairs(case["rhs"], "RHS1")
     if case["extra_rhs"] and case["rhs"]:
         out.append(fld("", "RHS2", case["rnames"][0], num(77.0)))
     if case["ranges"]:
         out.append("RANGES\n")
-        for r, v in case["ranges"]:
-            out.append(fld("", "RNG1", case["rnames"][r], num(v)))
+        pairs(case["ranges"], "RNG1")
         if case["extra_rhs"] and case["ranges"]:
             out.append(fld("", "RNG2", case["rnames"][0], num(5.0)))
     if case["bounds"]:
